@@ -91,6 +91,9 @@ func concretize(h *history, a *auA) concrete {
 		if a.HasParams {
 			au = append(au, spsOf(h, a.Params), ppsOf(a.Params))
 		}
+		if a.BadSPS {
+			au = append(au, []byte{0x67, 0xff}) // profile_idc only: no parser accepts it
+		}
 		u := a.Units[0]
 		if a.RA {
 			au = append(au, h264SliceNALU(h, a, u, true))
@@ -98,7 +101,7 @@ func concretize(h *history, a *auA) concrete {
 		if a.NonIDR {
 			au = append(au, h264SliceNALU(h, a, u, false))
 		}
-		if !a.RA && !a.NonIDR && !a.HasParams {
+		if !a.RA && !a.NonIDR && !a.HasParams && !a.BadSPS {
 			au = append(au, append([]byte{0x06}, fill(u.ID, 12)...)) // SEI only
 		}
 		var avcc []byte
@@ -820,6 +823,9 @@ func runImpl(h *history, dir string) (res *runResult) {
 				rc = 12
 			} else {
 				rc = 11
+				if os.Getenv("MUXDEBUG") != "" {
+					fmt.Fprintf(os.Stderr, "write error (leg %q, write %d): %v\n", h.Leg, k, err)
+				}
 			}
 		}
 		res.results = append(res.results, int(rc))
